@@ -86,6 +86,7 @@ SCHEMA = {
         F("mt", "opt:cfg:job", ignored=True), F("inner", "opt:cfg:holder"), F("leaf", "opt:cfg:leaf")]),
     "job": dict(tid="u.job", py="Job", fields=_JOB, task=True),
     "jobout": dict(tid="u.jobout", py="JobOut", fields=_JOBOUT, task=True, outputs="out"),
+    "jobx": dict(tid="u.jobx", py="JobX", fields=_JOB, task=True, outputs="out", isa="job"),
     "pre": dict(tid="u.pre", py="PreT", fields=_PRE, light=True),
     "init": dict(tid="u.init", py="InitT", fields=[F("k", "int", 0), F("h", "opt:cfg:holder")], light=True),
     # class-extension twins: same type identifier, extra defaulted / Meta / generated parameters
